@@ -1,5 +1,6 @@
 import AsyncsshModel.Model.ChannelSys
 import AsyncsshModel.Model.ChannelCodec
+import AsyncsshModel.Model.ChannelDecode
 import AsyncsshModel.Model.ChannelText
 /- Line-protocol driver for the C07 / C08 correspondence (see harness/props/_channel_lib.py).
 
@@ -8,6 +9,13 @@ import AsyncsshModel.Model.ChannelText
    app <a|b> <i> write <dt|-> <hex> | eof | close | pause | resume | start | arm <k>
    deliver <a|b>                       next message on the multiplexed link to that side
    raw <a|b> <i> data <dt|-> <hex> | adjust <n> | eof | close     a (hostile) peer's message arrives directly
+   req a <i>                           the client application sends a second `shell` request on a running channel
+                                       (nothing is sent once its `_send_chan` is None); it travels on the link to b
+                                       behind the messages already in flight; `deliver b` hands it to the server
+                                       endpoint: `ProtocolError('Channel not open')` unless the receive half is
+                                       open / eof_pending / eof, else answered with CHANNEL_FAILURE (`msgs=F`,
+                                       nothing if the send half is close_pending / closed) and NOTHING else
+                                       happens (`SSHServerChannel._start_session`, repair b98700f)
    dec <hex> ...                       the UTF-8 decoder alone, one chunk per argument
    tenc <codec> <cp.cp...|-> ...       one incremental encoder, one argument per write: bytes per write
    tfresh <codec> <cp.cp...|-> ...     every write encoded on its own
@@ -21,8 +29,11 @@ open AsyncsshModel.ChannelText (TextCodec BomSt)
 
 structure D where
   m : MSys
-  dec : Side → Nat → Option St
+  /-- the decoders of a text endpoint (`Model/ChannelDecode.lean`: one per data type); `none` = bytes endpoint -/
+  dec : Side → Nat → Option Decs
   dead : Bool
+  /-- second session requests in flight to b: (number of link messages ahead of it, channel), in order -/
+  reqs : List (Nat × Nat) := []
 
 def initD : D :=
   { m := MSys.init (fun _ => ({ window := 1, pktsize := 1, readTypes := [1], writeTypes := [] },
@@ -48,34 +59,39 @@ def parseDt (s : String) : Option DType := if s == "-" then some none else s.toN
 def parsePaused (s : String) : Option Paused :=
   if s == "n" then some .no else if s == "y" then some .yes else if s == "s" then some .starting else none
 
-/-- render callbacks, applying the text layer where the side decodes; `none` = UnicodeDecodeError -/
-def showOuts (chk : Bool) (st : Option St) : List Out → List String → Option St × List String × Bool
-  | [], acc => (st, acc, true)
-  | o :: rest, acc =>
-    match st, o with
-    | none, .data dt bs => showOuts chk none rest (acc ++ [s!"d{showDt dt}:{hex bs}"])
-    | some s, .data dt bs =>
-      match decode s bs with
-      | none => (st, acc, false)
-      | some (s', cps) =>
-        showOuts chk (some s') rest (acc ++ [s!"t{showDt dt}:" ++
-          (if cps.isEmpty then "-" else String.intercalate "." (cps.map toString))])
-    | none, .eof => showOuts chk none rest (acc ++ ["e"])
-    | none, .lost => showOuts chk none rest (acc ++ ["l"])
-    | some s, .eof => if finalOk s then showOuts chk st rest (acc ++ ["e"]) else (st, acc, false)
-    | some s, .lost =>
-      -- `_flush_recv_buf` runs `decoder.decode(b'', True)` before it closes; `close()` by the application
-      -- (`_discard_recv`, `chk = false`) does not
-      if finalOk s || !chk then showOuts chk st rest (acc ++ ["l"]) else (st, acc, false)
+def showRaw : Out → String
+  | .data dt bs => s!"d{showDt dt}:{hex bs}"
+  | .eof => "e"
+  | .lost => "l"
 
-def finish (d : D) (x : Side) (i : Nat) (pre : MSys) (inMsg : String) (r : Except Err MSys) (chk : Bool := true) :
+def showTOut : TOut → String
+  | .text dt cps => s!"t{showDt dt}:" ++ (if cps.isEmpty then "-" else String.intercalate "." (cps.map toString))
+  | .eof => "e"
+  | .lost => "l"
+
+/-- render the callbacks of one block, through the text layer of the model (`feedOutsV .now`: one decoder per data
+    type, final decode before EOF / cleanup unless the block is the application's own `close()`) where the side
+    decodes; `false` = UnicodeDecodeError -/
+def showOuts (flush : Bool) (st : Option Decs) (os : List Out) : Option Decs × List String × Bool :=
+  match st with
+  | none => (none, os.map showRaw, true)
+  | some ds =>
+    match feedOutsV .now flush ds os with
+    | (touts, some ds') => (some ds', touts.map showTOut, true)
+    | (touts, none) => (some ds, touts.map showTOut, false)
+
+/-- `ev`: the application event of the block, if it is one (the application's `close()` resets the decoders and
+    skips the final decode: `discardDecs`) -/
+def finish (d : D) (x : Side) (i : Nat) (pre : MSys) (inMsg : String) (r : Except Err MSys) (ev : Option Ev := none) :
     D × String :=
   match r with
   | .error e => ({ d with dead := true }, s!"fatal {showErr e}")
   | .ok m' =>
     let newMsgs := ((m'.link x.other).drop ((pre.link x.other).length)).map (fun p => showMsg p.2)
     let newOuts := ((m'.hist x i).dl).drop ((pre.hist x i).dl.length)
-    let (st', outs, ok) := showOuts chk (d.dec x i) newOuts []
+    let isClose := ev == some Ev.close
+    let ds0 := (d.dec x i).map (fun ds => if isClose then discardDecs .now (pre.ep x i) .close ds else ds)
+    let (st', outs, ok) := showOuts (!isClose) ds0 newOuts
     if ok then
       ({ d with m := m', dec := fun y j => if y = x ∧ j = i then st' else d.dec y j },
        s!"ok ch={i} in={inMsg} msgs={showList newMsgs} outs={showList outs}")
@@ -169,8 +185,8 @@ def step (d : D) (ws : List String) : D × String :=
       let m := { d.m with ep := fun y j => if j = i then s0.ep y else d.m.ep y j,
                           hist := fun y j => if j = i then {} else d.m.hist y j }
       let dec := fun y j => if j = i then
-          (match y with | .a => if da == "1" then some St.s0 else none
-                        | .b => if db == "1" then some St.s0 else none)
+          (match y with | .a => if da == "1" then some ([] : Decs) else none
+                        | .b => if db == "1" then some ([] : Decs) else none)
         else d.dec y j
       ({ d with m := m, dec := dec }, "ok")
     | _, _, _, _, _, _, _ => (d, "bad-op")
@@ -180,15 +196,33 @@ def step (d : D) (ws : List String) : D × String :=
     | some x, some i, some e =>
       match Channel.step (d.m.ep x i) e.toEv with
       | .error err => if err.isApi then (d, s!"api {showErr err}") else ({ d with dead := true }, s!"fatal {showErr err}")
-      | .ok _ => finish d x i d.m "-" (d.m.step (.app x i e)) (e != .close)
+      | .ok _ => finish d x i d.m "-" (d.m.step (.app x i e)) (some e.toEv)
     | _, _, _ => (d, "bad-op")
   | ["deliver", x] =>
     if d.dead then (d, "dead") else
     match parseSide x with
     | some x =>
-      match d.m.link x with
-      | [] => (d, "empty")
-      | (i, msg) :: _ => finish d x i d.m (showMsg msg) (d.m.step (.deliver x))
+      match (if x = .b then d.reqs else []) with
+      | (0, i) :: more =>
+        -- `_process_request` → `_process_shell_request` → `_start_session` → False → `_report_response(False)`
+        let c := d.m.ep .b i
+        if ¬ recvOpenish c.recvState then ({ d with dead := true }, "fatal notOpen")
+        else
+          let reply := if c.sendState = .closePending ∨ c.sendState = .closed then "-" else "F"
+          ({ d with reqs := more }, s!"ok ch={i} in=R msgs={reply} outs=-")
+      | _ =>
+        match d.m.link x with
+        | [] => (d, "empty")
+        | (i, msg) :: _ =>
+          let d' := if x = .b then { d with reqs := d.reqs.map (fun p => (p.1 - 1, p.2)) } else d
+          finish d' x i d.m (showMsg msg) (d.m.step (.deliver x))
+    | none => (d, "bad-op")
+  | ["req", "a", i] =>
+    if d.dead then (d, "dead") else
+    match i.toNat? with
+    | some i =>
+      let d' := if (d.m.ep .a i).sendChanOpen then { d with reqs := d.reqs ++ [((d.m.link .b).length, i)] } else d
+      (d', s!"ok ch={i} in=- msgs=- outs=-")
     | none => (d, "bad-op")
   | "raw" :: x :: i :: rest =>
     if d.dead then (d, "dead") else
